@@ -17,6 +17,19 @@ def showGroups (fs : Frags) : String :=
   let sorted := fs.toArray.qsort (fun a b => a.1 < b.1) |>.toList
   ",".intercalate (sorted.map fun kv => s!"{kv.1}:{kv.2.data.length}/{kv.2.max}/{kv.2.e}/{kv.2.c}")
 
+/-- arrivals interleaved with wake-ups of the receiver (`sweep` = one `markSweepFrags`) -/
+def recvSeq (fs : Frags) : List String → Option (Frags × List String)
+  | [] => some (fs, [])
+  | t :: ts =>
+    if t = "sweep" then do
+      let r ← recvSeq (sweep fs) ts
+      some (r.1, "swept" :: r.2)
+    else do
+      let p ← XMT.Drv.C01.parsePkt t
+      let r := recvFrag fs p
+      let rs ← recvSeq r.1 ts
+      some (rs.1, showOut r.2 :: rs.2)
+
 def handle (args : List String) : String :=
   match args with
   | ["split", f, g, j, p] =>
@@ -25,11 +38,9 @@ def handle (args : List String) : String :=
     | some f, some g, some j, some p => " ".intercalate ((split f (withJob p j) g).map XMT.Drv.C01.showPkt)
     | _, _, _, _ => "bad-op"
   | "recv" :: toks =>
-    match toks.mapM XMT.Drv.C01.parsePkt with
+    match recvSeq [] toks with
     | none => "bad-op"
-    | some ps =>
-      let (fs, outs) := recvAll [] ps
-      " ".intercalate (outs.map showOut) ++ " groups=" ++ showGroups fs
+    | some (fs, outs) => " ".intercalate outs ++ " groups=" ++ showGroups fs
   | _ => "bad-op"
 
 end XMT.Drv.C02
